@@ -1535,6 +1535,18 @@ where
          old="""        if !matches!(reason, BanReason::AdminBan(_)) {
             if let Some((BanReason::AdminBan(duration), since))""", new="""        if !matches!(reason, BanReason::FailedCheckout) {
             if let Some((BanReason::AdminBan(duration), since))"""),
+    dict(id="c02-rollback-after-the-resets", prop="C02", file="src/server.rs", expect="C02-R5",
+         what="checkin_cleanup resets the session before it rolls the abandoned transaction back (the ROLLBACK undoes the resets)",
+         old='        // Client disconnected with an open transaction on the server connection.\n        // Pgbouncer behavior is to close the server connection but that can cause\n        // server connection thrashing if clients repeatedly do this.\n        // Instead, we ROLLBACK that transaction before putting the connection back in the pool\n        if self.in_transaction() {\n            warn!(target: "pgcat::server::cleanup", "Server returned while still in transaction, rolling back transaction");\n            self.query("ROLLBACK").await?;\n\n            // Only the server\'s answer tells if that worked: a connection left in copy-in mode does not\n            // execute the ROLLBACK, it reads the message as a protocol violation that fails the transaction.\n            if self.in_transaction() {\n                self.mark_bad("still in a transaction after ROLLBACK");\n            }\n        }\n\n        // Client disconnected but it performed session-altering operations such as\n        // SET statement_timeout to 1 or create a prepared statement. We clear that\n        // to avoid leaking state between clients. For performance reasons we only\n        // send `RESET ALL` if we think the session is altered instead of just sending\n        // it before each checkin.\n        if self.cleanup_state.needs_cleanup() && self.cleanup_connections {\n            info!(target: "pgcat::server::cleanup", "Server returned with session state altered, discarding state ({}) for application {}", self.cleanup_state, self.application_name);\n            let mut reset_string = String::from("RESET ROLE;");\n\n            if self.cleanup_state.needs_cleanup_set {\n                reset_string.push_str("RESET ALL;");\n            };\n\n            if self.cleanup_state.needs_cleanup_prepare {\n                reset_string.push_str("DEALLOCATE ALL;");\n                // Since we deallocated all prepared statements, we need to clear the cache\n                if let Some(cache) = &mut self.prepared_statement_cache {\n                    cache.clear();\n                }\n                self.evicted_prepared_statements.clear();\n            };\n\n            self.query(&reset_string).await?;\n\n            // Only the server\'s answer tells if that worked: the statements run as one transaction,\n            // and a statement_timeout the client left behind, or a cancel request that arrives late,\n            // cancels them like any other query - the settings are then still in force.\n            if self.query_failed {\n                self.mark_bad("the server refused the clean-up");\n                return Ok(());\n            }\n\n            self.cleanup_state.reset();\n        }\n', new='        // Client disconnected but it performed session-altering operations such as\n        // SET statement_timeout to 1 or create a prepared statement. We clear that\n        // to avoid leaking state between clients. For performance reasons we only\n        // send `RESET ALL` if we think the session is altered instead of just sending\n        // it before each checkin.\n        if self.cleanup_state.needs_cleanup() && self.cleanup_connections {\n            info!(target: "pgcat::server::cleanup", "Server returned with session state altered, discarding state ({}) for application {}", self.cleanup_state, self.application_name);\n            let mut reset_string = String::from("RESET ROLE;");\n\n            if self.cleanup_state.needs_cleanup_set {\n                reset_string.push_str("RESET ALL;");\n            };\n\n            if self.cleanup_state.needs_cleanup_prepare {\n                reset_string.push_str("DEALLOCATE ALL;");\n                // Since we deallocated all prepared statements, we need to clear the cache\n                if let Some(cache) = &mut self.prepared_statement_cache {\n                    cache.clear();\n                }\n                self.evicted_prepared_statements.clear();\n            };\n\n            self.query(&reset_string).await?;\n\n            // Only the server\'s answer tells if that worked: the statements run as one transaction,\n            // and a statement_timeout the client left behind, or a cancel request that arrives late,\n            // cancels them like any other query - the settings are then still in force.\n            if self.query_failed {\n                self.mark_bad("the server refused the clean-up");\n                return Ok(());\n            }\n\n            self.cleanup_state.reset();\n        }\n\n        // Client disconnected with an open transaction on the server connection.\n        // Pgbouncer behavior is to close the server connection but that can cause\n        // server connection thrashing if clients repeatedly do this.\n        // Instead, we ROLLBACK that transaction before putting the connection back in the pool\n        if self.in_transaction() {\n            warn!(target: "pgcat::server::cleanup", "Server returned while still in transaction, rolling back transaction");\n            self.query("ROLLBACK").await?;\n\n            // Only the server\'s answer tells if that worked: a connection left in copy-in mode does not\n            // execute the ROLLBACK, it reads the message as a protocol violation that fails the transaction.\n            if self.in_transaction() {\n                self.mark_bad("still in a transaction after ROLLBACK");\n            }\n        }\n'),
+    dict(id="c14-reload-shortcut-leaves-plugins-out", prop="C14", file="src/config.rs", expect="C14-R2",
+         what="reload_config skips the rebuild when general and pools are unchanged (a change of the top-level [plugins] never reaches the pools)",
+         old="""    if old_config != new_config {
+        info!("Config changed, reloading");""", new="""    if old_config != new_config {
+        if old_config.general == new_config.general && old_config.pools == new_config.pools {
+            info!("Config changed, pools are not affected");
+            return Ok(true);
+        }
+        info!("Config changed, reloading");"""),
     # ------------------------------------------------------------------ C11
     dict(id="c11-inline-client", prop="C11", file="src/main.rs", expect="C11-R1",
          what="client handled inline in the accept loop instead of its own task",
